@@ -453,6 +453,28 @@ def u_rs(ctx, u):
         ctx.nontrivial('crafted', why, r, s)
         sb.free()
         ebb.free()
+    # valid signatures at an exceptional point of the verification equation: s*G and t*P are the same point, so the sum
+    # s*G + t*P is a doubling inside the verifier (k = 2s, r = s(1-d)/d, e = r - x(kG)); completeness must hold there too
+    for _ in range(3):
+        kk = rng.randrange(1, N)
+        ss = kk * pow(2, -1, N) % N
+        rr = ss * (1 - d) % N * pow(d, -1, N) % N
+        if rr == 0 or ss == 0 or (rr + ss) % N == 0:
+            continue
+        ee = R.i2b((rr - R.mul(kk, R.G)[0]) % N)
+        if not ctx.check(R.verify_rs(pk, ee, rr, ss), 'harness:crafted-doubling-signature-invalid-for-the-reference'):
+            continue
+        sb = ctx.inbuf(R.i2b(rr) + R.i2b(ss))
+        ebb = ctx.inbuf(ee)
+        ctx.begin(['crafted-valid', 'sG-equals-tP'])
+        ctx.check(lib.sm2_do_verify(key, ebb, sb) == 1, 'verify:valid-signature-rejected:crafted-sG-equals-tP:sm2_do_verify', r=hex(rr), s=hex(ss), e=ee.hex(), d=hex(d))
+        ctx.check(lib.sm2_fast_verify(tbl, ebb, sb) == 1, 'verify:valid-signature-rejected:crafted-sG-equals-tP:sm2_fast_verify', r=hex(rr), s=hex(ss), e=ee.hex(), d=hex(d))
+        der = R.sig_der(rr, ss)
+        db = ctx.inbuf(der)
+        ctx.check(lib.sm2_verify(key, ebb, db, len(der)) == 1, 'verify:valid-signature-rejected:crafted-sG-equals-tP:sm2_verify', der=der.hex(), e=ee.hex(), d=hex(d))
+        for b in (sb, ebb, db):
+            b.free()
+        ctx.nontrivial('crafted-valid', 'sG-equals-tP', rr, ss)
     for r, s in pairs:
         ref_ok = R.verify_rs(pk, e, r, s)
         sb = ctx.inbuf(R.i2b(r) + R.i2b(s))
